@@ -2245,7 +2245,10 @@ class UndoSearch:
              'user_name': u,
              'size': tl,
              'description': d}
-        d.update(e)
+        # The extension adds to the entry; it must not replace what the
+        # storage says itself (the id is what undo() is given).
+        for k in e:
+            d.setdefault(k, e[k])
         return d
 
 
